@@ -501,8 +501,12 @@ class SQLiteOrchestrator(BaseOrchestrator):
             )
             to_purge = [row[0] for row in cursor.fetchall()]
             cursor.close()
+            # release_waiters writes through its own connection: do it for every invocation
+            # before this connection opens its write transaction with the first DELETE,
+            # otherwise the second release waits for our own lock until it times out
             for invocation_id in to_purge:
                 self.release_waiters(invocation_id)
+            for invocation_id in to_purge:
                 conn.execute(
                     f"DELETE FROM {self.tables.INVOCATIONS} WHERE invocation_id = ?",
                     (invocation_id,),
